@@ -10,7 +10,7 @@ for ID in "$@"; do
   T=seeded_$(echo $ID | tr 'A-Z' 'a-z')
   git -C $WT checkout -q -- . ; git -C $WT clean -fdq -e target; git -C $WT checkout -q --detach $H
   export CARGO_TARGET_DIR=$WT/target
-  cp $D/demo.rs $WT/$CRATE/tests/$T.rs
+  mkdir -p $WT/$CRATE/tests; cp $D/demo.rs $WT/$CRATE/tests/$T.rs
   ( cd $WT && timeout 900 cargo test -p $CRATE --test $T --offline > $D/verify_demo_without.log 2>&1 ); R0=$?
   if ! git -C $WT apply $D/patch.diff 2> $D/verify_apply.log; then echo "{\"id\":\"$ID\",\"applies\":false}" > $D/verify.json; echo "$ID does not apply"; continue; fi
   ( cd $WT && timeout 900 cargo test -p $CRATE --test $T --offline > $D/verify_demo_with.log 2>&1 ); R1=$?
